@@ -15,8 +15,15 @@ which arm re-locks, the order "snapshot, then `c.L.Unlock()`", and Broadcast's s
 Go runtime semantics that are trusted, not verified: a send on a channel with a parked receiver is
 handed to that receiver atomically (bypassing the buffer); `close` wakes every parked receiver
 atomically; a `select` with at least one ready arm does not park and picks *some* ready arm;
-`context` cancellation closes `Done()` synchronously; `sync.RWMutex` makes Broadcast's two
-statements atomic w.r.t. the snapshot in `Wait` and the send in `Signal`.
+`context` cancellation closes `Done()` synchronously; `sync.RWMutex` by its documentation (a writer
+excludes readers and writers).
+
+The labels `signal` and `broadcast` of this LTS are whole calls. That this is a faithful account of calls
+that overlap on real threads is *not* assumed: `Model/CondFine.lean` runs `Signal` and `Broadcast`
+statement by statement from the regenerated lists `sigOps` / `bcOps` with `c.m` as explicit state (a
+`Signal` that evaluated `c.ch`, was overtaken by a `close` and then sends = panic), and
+`Proofs/CondFine.lean` proves from the lock discipline that no reachable state of that LTS has panicked
+and that it refines this one.
 -/
 namespace Juniper.Model.Cond
 open Juniper.Facts
@@ -48,8 +55,14 @@ structure Cfg where
   relockOnErr : Bool
   /-- the channel is snapshotted before `c.L.Unlock()` -/
   snapFirst : Bool
-  /-- the effect sequence of `Broadcast` -/
+  /-- the effect sequence of `Broadcast` (its statements without the lock operations) -/
   bcProg : List BStep
+  /-- the statements of `Signal`, in source order (interpreted one by one by the fine-grained LTS of
+  `Model/CondFine.lean`) -/
+  sigOps : List Op
+  /-- the statements of `Broadcast`, in source order, lock operations included (interpreted one by one by
+  the fine-grained LTS) -/
+  bcOps : List Op
   /-- everything else has the expected shape: no unknown statement, lock discipline of `c.m`
   (read lock around snapshot and send, write lock around Broadcast), `select` after `Unlock`,
   the ctx arm returns `ctx.Err()`, the `<-ch` arm falls through to `return nil`, no extra arms -/
@@ -60,7 +73,10 @@ structure Cfg where
 def Cfg.std : Cfg :=
   { cap0 := 1, capB := 1, sigSend := true, sigDflt := true, waitCh := true, waitCtx := true,
     relockOnWake := true, relockOnErr := false, snapFirst := true,
-    bcProg := [.closeCur, .install], shape := true }
+    bcProg := [.closeCur, .install],
+    sigOps := [.mRLock, .sel, .mRUnlock],
+    bcOps := [.mLock, .closeCur, .install, .mUnlock],
+    shape := true }
 
 def armBody (t : List (Arm × List Op)) (a : Arm) : List Op :=
   match t.find? (fun p => p.1 == a) with
@@ -87,6 +103,8 @@ def Cfg.gen : Cfg :=
     relockOnErr := ctxBody.contains .lLock
     snapFirst := decide (w.idxOf .snap < w.idxOf .lUnlock)
     bcProg := Gen.Cond.broadcastOps.filterMap bcStepOf
+    sigOps := Gen.Cond.signalOps
+    bcOps := Gen.Cond.broadcastOps
     shape :=
       -- Wait: the six statements, in one of the two orders the model understands
       (w == [.mRLock, .snap, .mRUnlock, .lUnlock, .sel, .retNil]
@@ -94,15 +112,20 @@ def Cfg.gen : Cfg :=
       && (chBody == [.lLock] || chBody == [])
       && (ctxBody == [.retCtxErr] || ctxBody == [.lLock, .retCtxErr])
       && Gen.Cond.waitArms.length == 2
+      -- the body tables list exactly the arms of the `select`s, once each, in the same order
+      && Gen.Cond.waitArmBodies.map (·.1) == Gen.Cond.waitArms
+      && Gen.Cond.signalArmBodies.map (·.1) == Gen.Cond.signalArms
       -- Signal: the select under the read lock, empty arm bodies
       && Gen.Cond.signalOps == [.mRLock, .sel, .mRUnlock]
       && Gen.Cond.signalArmBodies.all (fun p => p.2 == [])
       && Gen.Cond.signalArms.length ≤ 2
       && Gen.Cond.signalArms.all (fun a => a == .send "c.ch" || a == .dflt)
-      -- Broadcast: under the write lock, nothing but close / install
+      -- Broadcast: ONE write-lock section `Lock … Unlock` around everything, inside it nothing but close /
+      -- install (the order of close and install is `bcProg`; a second Lock/Unlock pair, a statement outside
+      -- the section or a split section is not this shape — audit C16 F1)
       && Gen.Cond.broadcastOps.head? == some .mLock
       && Gen.Cond.broadcastOps.getLast? == some .mUnlock
-      && Gen.Cond.broadcastOps.all (fun o => o == .mLock || o == .mUnlock || o == .closeCur || o == .install)
+      && ((Gen.Cond.broadcastOps.drop 1).dropLast).all (fun o => o == .closeCur || o == .install)
       && decide (0 ≤ Gen.Cond.newCap) && decide (0 ≤ Gen.Cond.broadcastCap) }
 
 /-- A wake-up channel. -/
@@ -210,6 +233,23 @@ def bcRun (cfg : Cfg) : State → List BStep → Option State
     | some s' => bcRun cfg s' bs
     | none => none
 
+/-- `case ch <- struct{}{}:` of `Signal`'s `select` on the channel with id `c` (the value `c.ch` had when the
+`select` evaluated it): handed to the parked waiter `to`, or (nobody parked on `c`) buffered, or dropped by
+the `default` arm. `none` = not possible: the channel is closed (the send panics), the hand-off choice is not
+available, or the send would block. -/
+def sendOn (cfg : Cfg) (s : State) (c : Nat) (to : Option Nat) : Option State :=
+  let chan := chanAt s c
+  if chan.closed then none  -- send on a closed channel panics
+  else match to with
+  | some i =>
+    if cfg.waitCh && pcOf s i = some (.parked c) then some (setPc s i (afterWake cfg)) else none
+  | none =>
+    if cfg.waitCh && s.ws.any (isParkedOn c) then none  -- a parked receiver takes it
+    else if chan.buf < chan.cap then
+      some { s with chans := s.chans.set c { chan with buf := chan.buf + 1 } }
+    else if cfg.sigDflt then some s  -- buffer full: dropped
+    else none  -- would block
+
 def step (cfg : Cfg) (s : State) : Label → Option State
   | .start i =>
     match s.ws[i]?, s.lock with
@@ -244,18 +284,7 @@ def step (cfg : Cfg) (s : State) : Label → Option State
     | none => none
   | .signal to =>
     if !cfg.sigSend then (if cfg.sigDflt then some s else none)
-    else
-      let chan := chanAt s s.cur
-      if chan.closed then none  -- send on a closed channel panics
-      else match to with
-      | some i =>
-        if cfg.waitCh && pcOf s i = some (.parked s.cur) then some (setPc s i (afterWake cfg)) else none
-      | none =>
-        if cfg.waitCh && s.ws.any (isParkedOn s.cur) then none  -- a parked receiver takes it
-        else if chan.buf < chan.cap then
-          some { s with chans := s.chans.set s.cur { chan with buf := chan.buf + 1 } }
-        else if cfg.sigDflt then some s  -- buffer full: dropped
-        else none  -- would block
+    else sendOn cfg s s.cur to
   | .broadcast => bcRun cfg s cfg.bcProg
   | .cancel i =>
     match s.ws[i]? with
